@@ -5,6 +5,7 @@ CONSTANTS
   MaxNow = 6
   MaxStep = 3
   MaxOps = 4
+  Chain = "none"
   Variant = "ok"
 INVARIANTS Accepted ViewsAgree WaitGroupSane
 CHECK_DEADLOCK FALSE
